@@ -317,7 +317,7 @@ def run_cmd(cmd, cwd, env, timeout, mem_gb=None):
 
 RE_SUMMARY = re.compile(r"\*\* (\d+) of (\d+) failed")
 RE_COVER = re.compile(r"\*\* (\d+) of (\d+) cover properties satisfied")
-RE_CHECK = re.compile(r"^Check (\d+): (\S+)\n\t - Status: (\w+)\n\t - Description: \"(.*)\"\n(?:\t - Location: (.*)\n)?", re.M)
+RE_CHECK = re.compile(r"^Check (\d+): (\S+)\n\t - Status: (\w+)\n\t - Description: \"((?:.|\n)*?)\"\n(?:\t - Location: (.*)\n)?", re.M)
 
 
 def parse_kani(out):
@@ -344,6 +344,16 @@ def parse_kani(out):
                 failed.append({"check": name, "description": desc, "location": loc})
         elif status in ("UNDETERMINED",):
             pass
+    if not failed and "VERIFICATION:- FAILED" in out:
+        # fall back on the summary section (descriptions may span lines)
+        for fm in re.finditer(r"Failed Checks: ((?:.|\n)*?)\n File: \"(.*?)\", line (\d+), in (\S+)", out):
+            desc = fm.group(1)
+            if "unwinding assertion" in desc:
+                unwind_fail = True
+            elif "is not currently supported" in desc:
+                unsupported = True
+            else:
+                failed.append({"check": fm.group(4), "description": desc, "location": "%s:%s" % (fm.group(2), fm.group(3))})
     r["failed"] = failed
     if "VERIFICATION:- SUCCESSFUL" in out:
         if r["checks"] == 0:
